@@ -10,6 +10,19 @@ import (
 // runCLI gives the script to the built cmd/testscript binary.  PATH holds only
 // the helper directory testscript.Main created (no `go`, so no gotooltest setup).
 func runCLI(bin, root, name string, text []byte, cont bool) (int, string) {
+	return runCLIMulti(bin, root, name, text, cont, 0)
+}
+
+// companion scripts with a known verdict, given to the command together with the script under test:
+// "exits 0 exactly when no script failed" is a statement about the whole invocation
+var companions = map[string]string{
+	"zpass": "exists seed.txt\n-- seed.txt --\nseed\n",
+	"zskip": "skip\n",
+	"zfail": "exists no-such-file\n",
+}
+
+// runCLIMulti: variant 0 = the script alone; 1 main+pass; 2 main+skip; 3 pass+main; 4 fail+main; 5 main+fail.
+func runCLIMulti(bin, root, name string, text []byte, cont bool, variant int) (int, string) {
 	dir := filepath.Join(root, name)
 	if err := os.MkdirAll(dir, 0o777); err != nil {
 		return -1, err.Error()
@@ -19,13 +32,31 @@ func runCLI(bin, root, name string, text []byte, cont bool) (int, string) {
 	if err := os.WriteFile(file, text, 0o666); err != nil {
 		return -1, err.Error()
 	}
+	comp := func(n string) string {
+		f := filepath.Join(dir, n+".txtar")
+		os.WriteFile(f, []byte(companions[n]), 0o666)
+		return f
+	}
+	files := []string{file}
+	switch variant {
+	case 1:
+		files = []string{file, comp("zpass")}
+	case 2:
+		files = []string{file, comp("zskip")}
+	case 3:
+		files = []string{comp("zpass"), file}
+	case 4:
+		files = []string{comp("zfail"), file}
+	case 5:
+		files = []string{file, comp("zfail")}
+	}
 	tmp := filepath.Join(dir, "tmp")
 	os.Mkdir(tmp, 0o777)
 	args := []string{}
 	if cont {
 		args = append(args, "-continue")
 	}
-	args = append(args, file)
+	args = append(args, files...)
 	cmd := exec.Command(bin, args...)
 	cmd.Dir = dir
 	cmd.Env = []string{"PATH=" + helperDir(), "TMPDIR=" + tmp, "GOTMPDIR=" + tmp, "HOME=" + dir}
